@@ -90,7 +90,7 @@ func genFrac(r *rand.Rand, dyadic bool, remaining *int) (int, int) {
 	return n, den
 }
 
-var allKeys = []string{"a", "b", "c", "d", "e", "zz", "", "A"}
+var allKeys = []string{"a", "b", "c", "d", "e", "zz", "", "A", "B"}
 
 func build(r *rand.Rand) (*env, rt.J) {
 	e := &env{m: &model{}, lparts: map[*part]*strategy.LookupPartition{}, pparts: map[*part]*strategy.PredicatePartition{},
@@ -183,10 +183,15 @@ func keysOf(m map[string]bool) []string {
 func (e *env) newPred(r *rand.Rand, p *part) *strategy.PredicatePartition {
 	set := map[string]bool{}
 	var f func(context.Context) bool
-	if r.IntN(3) == 0 { // the bundled string matcher, case-insensitive
-		k := []string{"a", "b", "c"}[r.IntN(3)]
-		set[k], set[strings.ToUpper(k)] = true, true
-		f = matchers.StringPredicateMatcher(k, true)
+	if r.IntN(3) == 0 { // the bundled string matcher, both flavours, patterns in either case
+		k := []string{"a", "b", "c", "A", "B"}[r.IntN(5)]
+		if r.IntN(2) == 0 {
+			set[strings.ToLower(k)], set[strings.ToUpper(k)] = true, true
+			f = matchers.StringPredicateMatcher(k, true)
+		} else {
+			set[k] = true // case-sensitive: exactly the pattern
+			f = matchers.StringPredicateMatcher(k, false)
+		}
 	} else { // overlapping key sets
 		for _, k := range allKeys {
 			if r.IntN(3) == 0 {
